@@ -1,3 +1,2 @@
--- This module serves as the root of the `Xrfmv` library.
--- Import modules here that should be built as part of the library.
-import Xrfmv.Basic
+-- Root of the library: everything `./check --setup` pre-builds.
+import Xrfmv.Props.C03
